@@ -74,7 +74,7 @@ def run(tier):
                 d, f = S.document(rng.choice([1, 2, 3, 4]))
                 if cfg in ("exp", "both") and b'"""\n' in d:
                     continue  # spells a text-block opener: extension syntax
-                if cfg in ("clj", "both") and which == "edn_grammar.ebnf" and (b"^" in d or b"#:" in d or b"\\o" in d or b"\\f" in d or b"\\b" in d):
+                if cfg in ("clj", "both") and which == "edn_grammar.ebnf" and (b"^" in d or b"#:" in d or b"\\o" in d or b"\\f" in d or b"\\b" in d or b"\\\x0c" in d or b"\\\x08" in d):
                     continue  # core grammar text that the Clojure flag gives another meaning (C18)
                 gdocs.append(d)
                 feats.append(f)
